@@ -56,7 +56,10 @@ def make_cases(tier):
             sups = list(itertools.product(supplies, repeat=ng))
             if ng >= 2:
                 r.shuffle(sups)
-                sups = sups[: (6 if tier == "quick" else (64 if ng == 2 else 10))]
+                keep = sups[: (6 if tier == "quick" else (64 if ng == 2 else 10))]
+                # always: the first global takes its default (or is missing) while a later one is absent / wrongly typed
+                must = [sp for sp in sups if sp[0] == "absent" and any(x in ("absent", "str", "int") for x in sp[1:])][: (3 if tier == "quick" else 40)]
+                sups = keep + [m for m in must if m not in keep]
             for sup in sups:
                 glob, outer = {}, []
                 for (name, _, _), sname in zip(decls, sup):
@@ -70,6 +73,15 @@ def make_cases(tier):
                     c["supply"] = list(sup)
                     cases.append(c)
                 k += 1
+    # files without any stanza: the globals are checked all the same
+    for i, (decls, glob) in enumerate([([("G0", "one", None)], {}), ([("G0", "star", None)], {"G0": A.vstr("not-a-list")}),
+                                        ([("G0", "one", "d"), ("G1", "plus", None)], {}), ([("G0", "one", None)], {"G0": A.vstr("x")})]):
+        prog = A.file([], globals_=[A.glob(n, q, d) for n, q, d in decls])
+        for c in A.both_modes("c16-nostanza-%d" % i, prog, 1, globals_=glob):
+            c["decls"] = [[n, q, d or ""] for n, q, d in decls]
+            c["supply"] = ["str" if n in glob else "absent" for n, _, _ in decls]
+            c["no_stanza"] = True
+            cases.append(c)
     # static rules: must be rejected by the loader
     static = {
         "redeclare": A.file([A.stanza("(module) @_m ", [A.node(A.var("n"))])], globals_=[A.glob("G"), A.glob("G")]),
@@ -128,7 +140,11 @@ def run(tier):
                 V.violation(case["id"] + "-missing", payload, {"observed": "missing"})
         if kind == "ExpectedList":
             stats["expected_list"] += 1
-        if o["status"] == "ok":
+        if o["status"] == "ok" and case.get("no_stanza"):
+            if want_missing:
+                payload["detail"] = "execution succeeded although a declared global without default was not supplied (file without stanzas)"
+                V.violation(case["id"] + "-missing", payload, {"observed": "not-missing"})
+        elif o["status"] == "ok":
             if want_missing:
                 payload["detail"] = "execution succeeded although a declared global without default was not supplied"
                 V.violation(case["id"] + "-missing", payload, {"observed": "not-missing"})
